@@ -248,3 +248,12 @@ def r6(ctx):
     ch = [t for t in n.calls(r'mpsc::sync_channel$')]
     ok = len(ch) == 1 and match(core(sym(n, ch[0].args[0])), ('arg', 3, ANY))
     ctx.require(ok, n, 'channel-capacity', 'channel = sync_channel(num_threads)', None, ch[0].span if ch else None)
+
+
+@rule('C05', 'R-C05-7', 'prerequisite (a dead worker ends the process)',
+      'the panic hook installed by Pipe::new before any worker starts ends the process unconditionally (R-C09-5 re-evaluated): '
+      'workers are detached, so without it a panicking item silently ends the stream early (one worker) or blocks the consumer '
+      'forever (several workers)')
+def r7(ctx):
+    from rules import c09
+    c09.r5(ctx)
